@@ -10,7 +10,7 @@ theorem wfB_sound {b : Bag} (h : b.wfB = true) : b.WF := by
   obtain ⟨⟨⟨⟨⟨⟨⟨h1, h2⟩, h3⟩, h4⟩, h5⟩, h6⟩, h7⟩, h8⟩ := h
   exact {
     ids := h1
-    single := multipleIncoming_false h2
+    outs := multipleIncoming_nodup h2
     inLeaf := fun n hn => isLeafIn_true (h3 n hn)
     inNames := names_inj_of_nodup (hasDupStr_false h4)
     outNames := names_inj_of_nodup (hasDupStr_false h5)
